@@ -145,7 +145,17 @@ def pow(a,b):
     deriv_b = gradient(b)
     def deriv(r):
       ar = a(r)
-      return potential(r) * (deriv_b(r) * math.log(ar) + b(r) * deriv_a(r)/ar)
+      br = b(r)
+      da = deriv_a(r)
+      db = deriv_b(r)
+      # b(r) * a(r)**(b(r)-1) * a'(r): needs neither the logarithm of the base nor a division by it,
+      # so a base that is zero or negative is fine when the exponent does not vary.
+      value = 0.0
+      if da != 0.0:
+        value = br * ar**(br-1) * da
+      if db != 0.0:
+        value += potential(r) * db * math.log(ar)
+      return value
     potential.deriv = deriv
 
     if hasattr(deriv_a, 'deriv') or hasattr(deriv_b, 'deriv'):
@@ -160,6 +170,15 @@ def pow(a,b):
         db = deriv_b(r)
         d2a = deriv2_a(r)
         d2b = deriv2_b(r)
+
+        if db == 0.0 and d2b == 0.0:
+          # Constant exponent: b(b-1) a**(b-2) a'**2 + b a**(b-1) a''
+          value = 0.0
+          if br*(br-1)*da != 0.0:
+            value += br*(br-1) * ar**(br-2) * da*da
+          if br*d2a != 0.0:
+            value += br * ar**(br-1) * d2a
+          return value
 
         # value = (deriv_b(r)*log(a(r)) + b(r)*deriv_a(r)/a(r))*deriv(r) + (math.log(a(r))*deriv2_b(r) + b(r)*deriv2_a(r)/a(r) + deriv_a(r)*deriv2_b(r)/a(r) + deriv_b(r)*deriv2_a(r)/a(r) - b(r)*deriv_a(r)*deriv2_a(r)/a(r)**2)*potential(r)
         value = (db*math.log(ar) + (br*da)/ar)*dr + (math.log(ar)*d2b + (br*d2a)/ar + (da*db)/ar + (db*da)/ar - (br*da*da)/(ar**2))*p
